@@ -111,7 +111,7 @@ def run_job(job):
     def on_path(pr):
         if pr.outcome == "exc":
             pr.obligations = [("never raises (%s: %s)" % (type(pr.exc).__name__, str(pr.exc)[:100]), z3.BoolVal(False), {})]
-        runner.discharge(ID, job, pr, out, rk, timeout_ms=8000, ext_timeout_s=120)
+        runner.discharge(ID, job, pr, out, rk, timeout_ms=8000, ext_timeout_s=400)
 
     eng.explore(fn, on_path, shard=tuple(job["shard"]) if job.get("shard") else None)
     out.d["stats"] = dict(eng.stats)
